@@ -67,3 +67,14 @@ pub fn same_multiset(a: &[usize], b: &[usize]) -> bool {
     y.sort_unstable();
     x == y
 }
+
+/// equality of two lists as sets
+pub fn same_set(a: &[usize], b: &[usize]) -> bool {
+    let mut x = a.to_vec();
+    let mut y = b.to_vec();
+    x.sort_unstable();
+    x.dedup();
+    y.sort_unstable();
+    y.dedup();
+    x == y
+}
